@@ -11,37 +11,44 @@ class Inst:
         self.family = family    # gen file the instance is written to
 
 
+def _pth(*k):
+    return "true" if sum(k) % 2 else "false"
+
+
 def fuzzy_instances(tier):
     out = []
     A = ["C01", "C02", "C03", "C04", "C10"]
-    # P: ASCII prefilter
+    U = lambda h: max(h + 2, 7)   # 5 delimiters -> core memchr loop needs 6; slices of H need H+1
+    # P: ASCII prefilter (bonus profile irrelevant: prefilter reads only ignore_case)
     sizes = [(3, 2), (4, 2), (4, 3), (5, 3)] if tier == "quick" else \
-            [(3, 2), (4, 2), (4, 3), (5, 2), (5, 3), (6, 3), (6, 4), (7, 4), (8, 4)]
+            [(3, 2), (4, 2), (4, 3), (5, 2), (5, 3), (5, 4), (6, 2), (6, 3), (6, 4), (7, 3), (7, 4), (8, 4)]
     for h, n in sizes:
-        out.append(Inst("prefilter_ascii_h%d_n%d" % (h, n), h + 2,
+        out.append(Inst("prefilter_ascii_h%d_n%d" % (h, n), U(h),
                         "prefilter_ascii_lemma::<%d, %d>()" % (h, n), ["C01", "C10"],
                         {"H": h, "N": n, "repr": "ascii x ascii"}, "matcher_fuzzy"))
     # O: optimal on concrete windows
     if tier == "quick":
-        wins = [(3, 2, 0, 3), (4, 2, 0, 4), (4, 2, 1, 4), (4, 2, 0, 3), (5, 3, 0, 5), (5, 3, 1, 5), (5, 2, 0, 5)]
+        wins = [(3, 2, 0, 3), (4, 2, 0, 4), (4, 2, 1, 4), (4, 2, 0, 3), (5, 3, 0, 5), (5, 3, 1, 5), (5, 2, 0, 5), (5, 2, 2, 5)]
     else:
         wins = []
         for h in range(3, 8):
-            for n in range(2, 4 if h < 7 else 4):
+            for n in range(2, 4):
                 if n >= h:
                     continue
                 for s in range(0, h - n):
                     for e in range(s + n + 1, h + 1):
                         wins.append((h, n, s, e))
-    for h, n, s, e in wins:
+    for k, (h, n, s, e) in enumerate(wins):
         p = 1 if (h + n + s + e) % 2 == 0 else 0
-        out.append(Inst("optimal_ascii_h%d_n%d_w%d_%d" % (h, n, s, e), h + 2,
-                        "optimal_ascii::<%d, %d, %d>(%d, %d)" % (h, n, p, s, e), A,
-                        {"H": h, "N": n, "window": [s, e], "prior_indices": p, "repr": "ascii x ascii"},
-                        "matcher_fuzzy"))
-    # G: greedy on concrete (start, greedy_end)
+        paths = [_pth(k)] if tier == "quick" else ["false", "true"]
+        for pa in paths:
+            out.append(Inst("optimal_ascii_h%d_n%d_w%d_%d_%s" % (h, n, s, e, "path" if pa == "true" else "dflt"), U(h),
+                            "optimal_ascii::<%d, %d, %d>(%d, %d, Some(%s))" % (h, n, p, s, e, pa), A,
+                            {"H": h, "N": n, "window": [s, e], "prior_indices": p, "repr": "ascii x ascii",
+                             "bonus_profile": "match_paths" if pa == "true" else "default"}, "matcher_fuzzy"))
+    # G: greedy (score-only) on concrete (start, greedy_end)
     if tier == "quick":
-        gw = [(4, 2, 0, 3), (4, 2, 1, 4), (5, 3, 0, 5), (5, 3, 1, 4)]
+        gw = [(4, 2, 0, 3), (4, 2, 1, 4), (5, 3, 0, 5), (5, 3, 1, 5), (5, 2, 0, 4)]
     else:
         gw = []
         for h in range(3, 9):
@@ -49,31 +56,93 @@ def fuzzy_instances(tier):
                 if n >= h:
                     continue
                 for s in range(0, h - n + 1):
-                    for g in range(s + n, h + 1):
-                        if g - s == n:
-                            continue  # contiguous: dispatched to calculate_score (S lemma)
+                    for g in range(s + n + 1, h + 1):
                         gw.append((h, n, s, g))
-    for h, n, s, g in gw:
-        p = 1 if (h + n + s + g) % 2 == 0 else 0
-        out.append(Inst("greedy_ascii_h%d_n%d_s%d_g%d" % (h, n, s, g), h + 2,
-                        "greedy_ascii::<%d, %d, %d>(%d, %d)" % (h, n, p, s, g), ["C01", "C02", "C03", "C10"],
-                        {"H": h, "N": n, "start": s, "greedy_end": g, "prior_indices": p, "repr": "ascii x ascii"},
-                        "matcher_fuzzy"))
-    # S: contiguous window
-    sw = [(4, 2, 1), (5, 3, 0)] if tier == "quick" else \
-         [(h, n, s) for h in range(3, 9) for n in range(2, 5) if n < h for s in range(0, h - n + 1)]
-    for h, n, s in sw:
-        p = 1 if (h + n + s) % 2 == 0 else 0
-        out.append(Inst("score_window_ascii_h%d_n%d_s%d" % (h, n, s), h + 2,
-                        "score_exact_window_ascii::<%d, %d, %d>(%d)" % (h, n, p, s), ["C02", "C03", "C10"],
-                        {"H": h, "N": n, "start": s, "prior_indices": p, "repr": "ascii x ascii"},
-                        "matcher_fuzzy"))
+    for k, (h, n, s, g) in enumerate(gw):
+        pa = _pth(k)
+        out.append(Inst("greedy_ascii_h%d_n%d_s%d_g%d" % (h, n, s, g), U(h),
+                        "greedy_ascii::<%d, %d>(%d, %d, Some(%s))" % (h, n, s, g, pa), ["C01", "C03", "C10"],
+                        {"H": h, "N": n, "start": s, "greedy_end": g, "repr": "ascii x ascii",
+                         "bonus_profile": "match_paths" if pa == "true" else "default"}, "matcher_fuzzy"))
+    # S: the scoring walk on concrete windows (with and without gaps)
+    if tier == "quick":
+        sw = [(4, 2, 1, 3), (4, 2, 0, 4), (5, 3, 0, 3), (5, 3, 1, 5), (5, 2, 0, 5)]
+    else:
+        sw = [(h, n, s, e) for h in range(3, 9) for n in range(2, 5) if n < h
+              for s in range(0, h - n + 1) for e in range(s + n, h + 1)]
+    for k, (h, n, s, e) in enumerate(sw):
+        p = 1 if (h + n + s + e) % 2 == 0 else 0
+        pa = _pth(k, 1)
+        out.append(Inst("score_window_ascii_h%d_n%d_w%d_%d" % (h, n, s, e), U(h),
+                        "score_window_ascii::<%d, %d, %d>(%d, %d, Some(%s))" % (h, n, p, s, e, pa), ["C02", "C03", "C10"],
+                        {"H": h, "N": n, "window": [s, e], "prior_indices": p, "repr": "ascii x ascii",
+                         "bonus_profile": "match_paths" if pa == "true" else "default"}, "matcher_fuzzy"))
     return out
+
+
+def exact_instances(tier):
+    out = []
+    U = lambda h: max(h + 2, 7)
+    kinds = [("Substring", "substring"), ("Prefix", "prefix"), ("Postfix", "postfix"), ("Exact", "exact")]
+    if tier == "quick":
+        sizes = {"substring": [(4, 2), (5, 3), (4, 3)], "prefix": [(4, 2), (3, 3)], "postfix": [(4, 2), (5, 3)], "exact": [(4, 2), (3, 3), (4, 3)]}
+        f1 = [(3, 1), (5, 1)]
+    else:
+        allsz = [(h, n) for h in range(2, 9) for n in range(2, 5) if n <= h]
+        sizes = {k: allsz for _, k in kinds}
+        f1 = [(h, 1) for h in range(2, 11)]
+    k = 0
+    for K, kn in kinds:
+        for h, n in sizes[kn]:
+            paths = [_pth(k)] if tier == "quick" else ["false", "true"]
+            k += 1
+            for pa in paths:
+                p = (h + n) % 2
+                out.append(Inst("%s_ascii_h%d_n%d_%s" % (kn, h, n, "path" if pa == "true" else "dflt"), U(h),
+                                "contiguous_ascii::<%d, %d, %d>(Kind::%s, Some(%s))" % (h, n, p, K, pa),
+                                ["C05", "C02", "C03", "C10"],
+                                {"H": h, "N": n, "kind": kn, "prior_indices": p, "repr": "ascii x ascii",
+                                 "bonus_profile": "match_paths" if pa == "true" else "default"}, "matcher_exact"))
+    for h, n in f1:
+        for pa in ["false", "true"]:
+            out.append(Inst("fuzzy1_ascii_h%d_%s" % (h, "path" if pa == "true" else "dflt"), U(h),
+                            "contiguous_ascii::<%d, 1, 1>(Kind::Fuzzy1, Some(%s))" % (h, pa),
+                            ["C04", "C01", "C02", "C03", "C10"],
+                            {"H": h, "N": 1, "kind": "fuzzy, one-character needle", "repr": "ascii x ascii",
+                             "bonus_profile": "match_paths" if pa == "true" else "default"}, "matcher_exact"))
+    return out
+
+
+def chars_instances(tier):
+    B = {"domain": "one symbolic char over all 1,112,064 scalar values", "config": "symbolic"}
+    return [
+        Inst("chars_fold_reference", 16, None, ["C16"], B, None),
+        Inst("chars_normalize_reference", 16, None, ["C16"], B, None),
+        Inst("chars_coherence", 64, None, ["C16"], B, None),
+    ]
 
 
 FAMILIES = {
     "matcher_fuzzy": fuzzy_instances,
+    "chars": chars_instances,
+    "matcher_exact": exact_instances,
 }
+
+
+def write_gen(sc, tier, extra=()):
+    """(Re)generates every instance list and reference table from the current tree."""
+    import ucd_ref
+    fams = {}
+    for i in list(all_instances(tier)) + list(extra):
+        if i.family:
+            fams.setdefault(i.family, [])
+            if not any(j.name == i.name for j in fams[i.family]):
+                fams[i.family].append(i)
+    for fam, insts in fams.items():
+        sc.write_gen(fam + ".rs", gen_text(insts))
+    txt, meta = ucd_ref.rust_tables(open(sc.repo + "/matcher/src/chars/normalize.rs").read())
+    sc.write_gen("chars_ref.rs", txt)
+    return meta
 
 
 def all_instances(tier):
